@@ -97,7 +97,14 @@ func (c *c14Oracle) Check(w *World, o *Obs) []Violation {
 			w.Stats.Reach["c14_login_over_other_identity"]++
 		}
 	}
-	if matches && !faulted && !o.errorOutcome() {
+	// ... whatever became of the callback afterwards: a matched state is spent
+	// as soon as a response reaches the browser. (An error the error handler
+	// answers with a 500 is such a response; the silent handler writes nothing,
+	// so nothing can be delivered; a fault in the session store itself is not
+	// the library's doing.)
+	answered := !o.errorOutcome() || (w.Cfg.Err500 && o.Status == 500 && o.Panic == "")
+	benign := o.FaultFired == "" || strings.HasPrefix(o.FaultFired, "db.") || strings.HasPrefix(o.FaultFired, "idp.")
+	if matches && answered && benign && o.Panic == "" {
 		if o.SessAfter["oauth2_state"] != "" {
 			out = append(out, viol("C14", "state_not_spent", st.Kind, o, "a callback that matched the session state left the state in the session"))
 		} else {
